@@ -1,5 +1,13 @@
 """Check C12 — dump / load round trips (pickle, whole-manager pickle, JSON).
 
+Item order (audit 2, gap 9).  The answer of a `*dump` op is compared with the model's content
+(a) UNSORTED where Python's order is determined and the model predicts it — the JSON node lines —,
+(b) as a PERMUTATION (both sides print the items sorted by key: equal multisets of items with
+distinct keys) where it is not: the `vars` / `level_of_var` items (insertion order of `bdd.vars`,
+not part of the model state) and the `succ` items of a pickle (iteration order of a `set`).  The
+theorems are stated for every permutation (`C12_*_perm`); `permuted_files` loads re-written files
+with permuted items.  The `*load` lines always carry the items in FILE order.
+
 Real side: protocol ops registered in `impl.EXT_OPS` / `impl.EXT_LINE_OPS`.  Every
 file the real code writes is RE-READ here (unpickled / JSON-parsed) and its content is
 (a) printed canonically as the answer of the `*dump` op, so that it is compared with the
@@ -942,7 +950,41 @@ def witness_failed_loads(ctx):
     fixed_json(mid, 'F19', unrooted, True, names=('y', 'x')); mid += 1
     fixed_json(mid, 'F20', illord, True); mid += 1
     fixed_json(mid, 'F20', illord, True, names=('x', 'y'), hold=True); mid += 1
-    ctx.add_session(s, SECTIONS_L3, 'C12/C17 witnesses F16 F17 F18 F19 F20')
+    # fewer than two variables, dynamic reordering ENABLED and a request due
+    # (`C17_load_json_rejected_start`): the request fires inside `bdd.var` of `_make_node`,
+    # `reorder(bdd)` raises (sifting needs two variables), `load_json` fails with that exception and
+    # releases; the manager is good for the caller's ledger and dynamic reordering is left OFF by
+    # the decorator.  A well-formed one-variable file, into `BDD()` and into a manager that holds `x`.
+    one = '{\n"level_of_var": {"x": 0},\n"roots": [2],\n"2": [0, "F", "T"]\n}\n'
+    for hold in (False, True):
+        s.new(mid, ['x'] if hold else [])
+        if hold:
+            x = s.val(s.op(mid, 'var', 'x'))
+            s.incref(mid, -x)
+        s.op(mid, 'configure', 1)
+        s.op(mid, 'fire_in', 1)
+        fh, path = _new_file(s.impl, '.json')
+        with open(path, 'w') as f:
+            f.write(one)
+        fields = json_fields(read_json(path), False)
+        ans = s.op(mid, 'jload', fh, f'w{mid}', 0, *fields)
+        s.op(mid, 'fire_off')
+        ctx.evaluations += 1
+        b = s.mgr(mid)
+        bad = order_views_ok(b) + check_invariants(b, dict(s.ledger.get(mid, {})))
+        if not ans.startswith('err'):
+            bad.append(f'a request with one variable did not make the load fail: {ans}')
+        if b.configure()['reordering']:
+            bad.append('dynamic reordering still enabled after the failed sifting')
+        if hold and TT(b, ['x']).of(-x) != Space(['x']).neg(Space(['x']).var('x')):
+            bad.append('the held function changed')
+        s.state(mid)
+        if bad:
+            ctx.violation('load_json with fewer than two variables and a request due', dict(
+                problems=bad[:4], got=ans, tags=dict(call='load-rejected', what='few-variables')))
+        ctx.case(('witness', 'few', hold))
+        mid += 1
+    ctx.add_session(s, SECTIONS_L3, 'C12/C17 witnesses F16 F17 F18 F19 F20 few')
     s.close()
 
 
@@ -1206,6 +1248,127 @@ def rejected_content(ctx):
 
 
 
+def permuted_files(ctx):
+    """Audit 2, gap 9 — the ORDER of the items of a file.  The model writes `vars` sorted by name
+    and `succ` by ascending id; Python writes `vars` in the insertion order of `bdd.vars` and
+    `succ` in the iteration order of a `set` (JSON: `level_of_var` in dict order, the node lines in
+    the determined order of the recursion — compared UNSORTED with the model's).  The theorems
+    (`C12_*_perm`) are about every file `f' ≈ dump`: here the real file is (a) checked to have its
+    `vars` items in the order of `bdd.vars`, (b) re-written with its items PERMUTED (JSON: the
+    lines in another children-first order) and loaded by the real code and by the model, which
+    reads the very same permuted content: the same functions by name; with `levels=True` into a
+    fresh manager the SOURCE's levels whatever the item order; with `levels=False` the order of the
+    ITEMS of the file."""
+    rng = ctx.rng
+    names = ['a', 'b', 'c', 'd'] if rng.random() < 0.5 else ['a', 'b', 'c']
+    sp = Space(names)
+    perm = list(names)
+    rng.shuffle(perm)
+    # the `vars` dict order of the source differs from its level order (and from the name order)
+    decl = list(names)
+    rng.shuffle(decl)
+    src_levels = [(v, perm.index(v)) for v in decl]
+    k = rng.choice([1, 2, 3])
+    tts = [rng.randrange(1, sp.full) for _ in range(k)]
+    signs = [rng.choice([1, -1]) for _ in tts]
+    sc = Scenario(ctx, names, src_levels, tts, rng.random() < 0.5, signs)
+    s = sc.s
+    b0 = s.mgr(0)
+
+    def shuffled(items):
+        items = list(items)
+        for _ in range(4):
+            rng.shuffle(items)
+            if len(items) < 2 or items != sorted(items):
+                break
+        return items
+
+    # ---- pickle -------------------------------------------------------------------------------
+    ans = s.op(0, 'pdump', roots_show(sc.roots))
+    if ans.startswith('ok'):
+        fh, d = sc.last()
+        if list(d['vars']) != list(b0.vars):
+            ctx.violation('the `vars` items of the pickle are not in the order of `bdd.vars`', dict(
+                got=list(d['vars']), want=list(b0.vars), **sc.tag_base, tags=dict(call='dump', what='item-order')))
+        pv = shuffled(d['vars'].items())
+        ps = shuffled(d['succ'].items())
+        fh2, path2 = _new_file(s.impl, '.p')
+        with open(path2, 'wb') as f:
+            pickle.dump(dict(vars=dict(pv), succ=dict(ps), roots=d['roots']), f, protocol=2)
+        d2 = read_pickle(path2)
+        if list(d2['vars'].items()) != pv or list(d2['succ'].items()) != ps:
+            raise RuntimeError('HARNESS: the permuted pickle was not written in the permuted order')
+        fields = pickle_fields(d2, False)
+        item_order = [v for v, _i in pv]
+        for kind, levels in (('fresh', True), ('fresh', False), ('same', True), ('same', False),
+                             ('declared-other', False), ('declared-extra', False)):
+            mid, desc = sc.target(kind)
+            tags = dict(call='load', fmt='pickle', target=kind, levels=levels, what='permuted-items')
+            a2 = s.op(mid, 'pload', fh2, int(levels), *fields)
+            got = sc.judge(mid, a2, f'pickle load of PERMUTED items into {desc} levels={levels}', tags,
+                           held=False)
+            if got is not None and kind == 'fresh':
+                bv = dict(s.mgr(mid).vars)
+                want = dict(sc.src_levels) if levels else {v: j for j, v in enumerate(item_order)}
+                if bv != want:
+                    ctx.violation('variable order after loading a permuted pickle into a fresh manager', dict(
+                        got=bv, want=want, levels=levels, **sc.tag_base, tags=tags))
+            s.state(mid)
+            ctx.count(f'permuted:pickle:{kind}:{"L" if levels else "l"}')
+    else:
+        ctx.violation('pickle dump raised', dict(got=ans, **sc.tag_base, tags=dict(call='dump')))
+    # ---- JSON ---------------------------------------------------------------------------------
+    if sc.refs and any(abs(r) != 1 for r in sc.refs):
+        ans = s.op(0, 'jdump', roots_show(sc.roots))
+        if ans.startswith('ok'):
+            fh, d = sc.last()
+            if list(d['level_of_var']) != list(b0.vars):
+                ctx.violation('`level_of_var` is not in the order of `bdd.vars`', dict(
+                    got=list(d['level_of_var']), want=list(b0.vars), **sc.tag_base,
+                    tags=dict(call='dump-json', what='item-order')))
+            lov = shuffled(d['level_of_var'].items())
+            # another children-first order of the lines: a random linear extension
+            todo = list(d['nodes'])
+            placed, lines = set(), []
+            while todo:
+                ready = [n for n in todo if all(not isinstance(x, int) or abs(x) in placed for x in (n[2], n[3]))]
+                n = rng.choice(ready)
+                todo.remove(n)
+                placed.add(n[0])
+                lines.append(n)
+            fh2, path2 = _new_file(s.impl, '.json')
+            with open(path2, 'w') as f:
+                f.write('{\n')
+                f.write('"level_of_var": ' + json.dumps(dict(lov)) + ',\n')
+                f.write('"roots": ' + json.dumps(d['roots']))
+                for k_, lvl, lo, hi in lines:
+                    f.write(',\n' + f'"{k_}": ' + json.dumps([lvl, lo, hi]))
+                f.write('\n}\n')
+            d2 = read_json(path2)
+            fields = json_fields(d2, False)
+            for kind, lo in (('fresh', False), ('fresh', True), ('same', False), ('declared-other', False),
+                             ('declared-other', True)):
+                mid, desc = sc.target(kind)
+                nv = len(set(s.mgr(mid).vars) | set(sc.src_levels))
+                refusal = lo and nv != len(sc.src_levels)
+                hh = sc.hold_handle()
+                tags = dict(call='load', fmt='json', target=kind, load_order=lo, what='permuted-items')
+                a2 = s.op(mid, 'jload', fh2, hh, int(lo), *fields)
+                got = sc.judge(mid, a2, f'JSON load of PERMUTED items into {desc} load_order={lo}', tags,
+                               held=True, expect_refusal=refusal)
+                if got is not None and lo and dict(s.mgr(mid).vars) != sc.src_levels:
+                    ctx.violation('load_order=True of a permuted file did not restore the order of the file',
+                                  dict(**sc.tag_base, tags=tags))
+                if a2.startswith('ok'):
+                    s.op(mid, 'drop', hh, a2[3:])
+                    sc.after_drop(mid, tags)
+                s.state(mid)
+                ctx.count(f'permuted:json:{kind}:{"O" if lo else "o"}')
+    ctx.case(('permuted', tuple(src_levels), tuple(tts), tuple(signs)))
+    ctx.add_session(s, SECTIONS_L3, f'C12 permuted items {sc.tag_base}')
+    s.close()
+
+
 def build_driver():
     """`lib.lean_side` builds `ddvdrv` only; this slice's sessions are replayed on `ddvdump`."""
     import subprocess
@@ -1274,6 +1437,8 @@ def check_C12(ctx):
         witness_failed_loads(ctx)
         for _ in range(2 if ctx.tier == 'quick' else 25):
             rejected_content(ctx)
+        for _ in range(4 if ctx.tier == 'quick' else 120):
+            permuted_files(ctx)
         n = 0
         budget_tail = 25 if ctx.tier == 'quick' else 60
         total = 250 if ctx.tier == 'quick' else 4000
@@ -1373,5 +1538,6 @@ REGISTRY = {
             'pre-existing held nodes x levels x load_order x dd.bdd / dd.autoref (x reordering '
             'enabled for JSON); files re-read and compared with the model content; truth tables by '
             'name, container shape, invariants + exact counts (ledger), collection after release; '
-            'unreadable / wrong-extension files'),
+            'unreadable / wrong-extension files; files re-written with PERMUTED items (vars / succ / '
+            'level_of_var, JSON lines in another children-first order) loaded by code and model'),
 }
